@@ -31,9 +31,9 @@ def log(*a):
     print(*a, file=sys.stderr, flush=True)
 
 
-def sh(cmd, cwd=None, timeout=None, env=None, input=None, check=False):
+def sh(cmd, cwd=None, timeout=None, env=None, input=None, check=False, clean_env=False):
     """Run a command, return (rc, stdout, stderr) as text."""
-    e = dict(os.environ)
+    e = {} if clean_env else dict(os.environ)
     if env:
         e.update(env)
     try:
